@@ -108,10 +108,13 @@ def analyse(case, res):
             fails.append(Failure("C09.not_stopped", "C09.not_stopped",
                                  f"{sorted(over.items())[:3]} need more than max_loop_iterations={maxit} sub-steps but "
                                  f"run() completed"))
-        elif res.outcome == "exception" and res.exc_type == "SimulationError" and "sub-step" in (res.exc_msg or ""):
-            m = re.search(r"Simulator (\S+) has performed", res.exc_msg)
-            named = m.group(1) if m else None
-            if named not in {k[0] for k in over}:
+        elif res.outcome == "exception" and res.exc_type == "SimulationError":
+            # the statement fixes the exception type and that the message names the simulator, not the wording:
+            # every simulator id that occurs as a token of the message counts as named
+            tokens = set(re.findall(r"[A-Za-z0-9_.\-]+", res.exc_msg or ""))
+            tokens |= {t.strip(".") for t in tokens}
+            named = sorted(s["sid"] for s in scn["sims"] if s["sid"] in tokens)
+            if not set(named) & {k[0] for k in over}:
                 fails.append(Failure("C09.wrong_simulator_named", "C09.wrong_simulator_named",
                                      f"error names {named}, simulators over the bound: {sorted({k[0] for k in over})}"))
         elif res.outcome in ("deadlock", "livelock", "runaway"):
